@@ -16,6 +16,10 @@ harness can ask the driver whether a generated case lies inside a theorem.
 
 Defects of the unchanged code that make the full statements false are recorded as proved
 negations with concrete witnesses (section "Witnesses"); each was confirmed on the binary.
+The model follows six small repairs of the source when the translator finds them there
+(`Generated.Grep.fix…`, `noSepLastExcluded`; patches notes/fix-grep-*.diff): a witness is
+stated for the unrepaired source (`fix… = false → …`), and next to it stands what holds once
+the repair is in.  All proofs are valid for either value of every flag.
 -/
 namespace C16
 open Grep
@@ -27,7 +31,14 @@ def utf8 (s : String) : Bytes := s.toList.flatMap String.utf8EncodeChar
 
 /-- The five regex pattern texts assembled by `make_grep_line_regex` (regenerated from the
 source on every run) are the ones the hand-written parsers were written against. -/
-theorem patterns_pinned : Generated.Grep.patternHashes = pinnedPatternHashes := by decide
+theorem patterns_pinned :
+    Generated.Grep.patternHashes = pinnedPatternHashes ∨
+    Generated.Grep.patternHashes = pinnedPatternHashesRepaired := by decide
+
+/-- The last character class of the separator-free path is `[^:\ ]` or, repaired, `[^:\ =-]`
+(the only part of the patterns the model reads from the source rather than pins). -/
+theorem noext_last_class :
+    Generated.Grep.noSepLastExcluded = ": " ∨ Generated.Grep.noSepLastExcluded = ": =-" := by decide
 
 /-- `parse_grep_line` tries the plain-text regexes in this order (regenerated). -/
 theorem plain_order : plainVariants = [.extNum, .extNoSpaces, .ext, .noSep] := by decide
@@ -144,9 +155,12 @@ example : fragNoExt
 code row, in order, under its own path (classic style: on the row; ripgrep style: the last
 path header), with its number and its code (tabs expanded), and emission does not panic —
 for hits satisfying `hitOk` (Proofs/GrepEmit.lean): line number not 0; text match lines
-whose `path:number:` prefix has the recomputed length; valid (shifted) submatches; in
-ripgrep style not (no number and empty code); in classic style a function-context header
-rendered as hunk header has a number. Each excluded case is a witness below. -/
+whose `path:number:` prefix has the recomputed length (or, ripgrep style, empty code); valid
+(shifted) submatches; in ripgrep style not (no number and empty code); in classic style a
+function-context header rendered as hunk header has a number. Each excluded case is a
+witness below, and each demand is dropped by `hitOk` once the corresponding repair is in
+the source — with all five in, `hitOk` only asks that the line is not an `rg --json`
+begin/end/summary record. -/
 theorem one_row_per_hit_partial (cfg : Cfg) (style : GrepType) (lines : List Line)
     (hstyle : ∀ h, Line.hit h ∈ lines → cfg.outputType.getD h.gtype = style)
     (hok : ∀ h, Line.hit h ∈ lines → hitOk cfg style h = true) :
@@ -181,32 +195,39 @@ def yields {α : Type} [DecidableEq α] (e : Except Panic α) (v : α) : Bool :=
   | .error _ => false
 
 /-- DESIGN defect #7: a submatch reaching beyond the text panics in `make_style_sections`. -/
-theorem json_span_out_of_range_panics :
+theorem json_span_out_of_range_panics : Generated.Grep.fixSectionsGuard = false →
     panicsWith (makeStyleSections (utf8 "abc") [(1, 9)]) .sliceOutOfRange = true := by decide
+
+/-- With the guard of notes/fix-grep-submatch-range.diff no submatch list can make
+`make_style_sections` panic, and the sections always concatenate to the code. -/
+theorem json_sections_total (hfix : Generated.Grep.fixSectionsGuard = true)
+    (line : Bytes) (subs : List (Nat × Nat)) :
+    ∃ secs, makeStyleSections line subs = .ok secs ∧ secsText secs = line :=
+  makeStyleSections_total hfix line subs
 
 /-- Valid `rg --json` output: non-ASCII text before a TAB and a submatch before the TAB. The
 uniform shift of `expand_tabs` moves the offset into a character: panic. -/
-theorem json_tab_shift_leaves_char_boundary :
-    panicsWith (codeSections { outputType := none, tabWidth := 8, headerAsHunkHeader := true }
+theorem json_tab_shift_leaves_char_boundary : Generated.Grep.fixSectionsGuard = false →
+    panicsWith (codeSections { outputType := none, tabWidth := 8, headerAsHunkHeader := true } .ripgrep
       { gtype := .ripgrep, kind := .match_, path := "a.rs".toList, num := some 3, prefixOk := true,
         code := (utf8 "éééé\tfoo"), subs := some [(0, 2)] }) .sliceNotCharBoundary = true := by
   decide
 
 /-- `a.rs:0:x`: `n - 1` underflows (builds with overflow checks). -/
-theorem line_number_zero_panics :
+theorem line_number_zero_panics : Generated.Grep.fixLineNumberZero = false →
     panicsWith (emit { outputType := none, tabWidth := 8, headerAsHunkHeader := true }
       [.hit (exHit "a.rs" .match_ (some 0) "x")]) .lineNumberZero = true := by decide
 
 /-- `one_row_per_hit` at full strength is false: in ripgrep style an unnumbered line with
 empty code (a blank context line of `grep -C` without `-n`) produces no row at all. -/
-theorem one_row_per_hit_fails_empty_unnumbered :
+theorem one_row_per_hit_fails_empty_unnumbered : Generated.Grep.fixEmptyRow = false →
     yields (attach <$> emit { outputType := some .ripgrep, tabWidth := 8, headerAsHunkHeader := true }
       [.hit (exHit "a.rs" .match_ none "let x"), .hit (exHit "a.rs" .context none "")])
       [(some "a.rs".toList, none, utf8 "let x")] = true := by decide
 
 /-- Classic style: the function-context header of `git grep -p` without `-n` is handed line
 number 0 (`unwrap_or(0)`), which the hunk-header writer prints. -/
-theorem classic_header_shows_zero :
+theorem classic_header_shows_zero : Generated.Grep.fixHeaderNumber = false →
     yields (attach <$> emit { outputType := none, tabWidth := 8, headerAsHunkHeader := true }
       [.hit (exHit "src/a.rs" .contextHeader none "fn main() {")])
       [(some "src/a.rs".toList, some 0, utf8 "fn main() {")] = true := by decide
@@ -214,9 +235,15 @@ theorem classic_header_shows_zero :
 /-- `Makefile--x` (context line of an extension-less, separator-free name; code `-x`): the
 last path character class of the fourth regex (`[^:\ ]`) admits `-`, so the path is read as
 `Makefile-`. -/
-theorem plain_extensionless_witness :
+theorem plain_extensionless_witness : Generated.Grep.noSepLastExcluded = ": " →
     parsePlain (fmtPlain { path := "Makefile".toList, kind := .context, digits := none, code := "-x".toList }) =
       some { path := "Makefile-".toList, kind := .context, digits := none, code := "x".toList } := by
+  decide
+
+/-- With the repaired class (`[^:\ =-]`) the same line is read as written. -/
+theorem plain_extensionless_repaired : Generated.Grep.noSepLastExcluded = ": =-" →
+    parsePlain (fmtPlain { path := "Makefile".toList, kind := .context, digits := none, code := "-x".toList }) =
+      some { path := "Makefile".toList, kind := .context, digits := none, code := "-x".toList } := by
   decide
 
 /-- An unnumbered line is ambiguous beyond the sep-number-sep look-alike the property names:
